@@ -4,6 +4,7 @@ import os
 # must precede the first numba import in this process
 os.environ['NUMBA_NUM_THREADS'] = '32'          # nthread up to 32 must be accepted by numba whatever the machine
 os.environ.setdefault('OMP_WAIT_POLICY', 'passive')   # idle OpenMP workers do not spin (speed only)
+os.environ['NUMBA_BOUNDSCHECK'] = '1'           # an out-of-range access raises where numba can check it
 
 import json  # noqa: E402
 import warnings  # noqa: E402
@@ -18,6 +19,7 @@ THEOREMS = [NS + t for t in (
     'accepted_is_safe',
     'starts_index_inbounds',
     'parallel_eq_serial',
+    'parallel_eq_serial_stripe_order',
     'narrow_stripe_races',
 )] + ['AbacusVerif.Conc.disjoint_footprints_interleave', 'AbacusVerif.Conc.rmw_interleave',
       'AbacusVerif.Conc.lost_update_witness']
@@ -439,6 +441,10 @@ def run_whole(ctx, tsc, c, safe_first):
     except ValueError:
         ctx.count('whole:rejected')
         return
+    except Exception as e:   # noqa: BLE001
+        ctx.fail('tsc_parallel raised on an accepted configuration', c, '%s: %s' % (type(e).__name__, str(e)[:200]),
+                 'the single-thread grid', key='tsc:exception')
+        return
     if not np.array_equal(got, ref):
         ctx.fail('parallel TSC grid differs from the single-thread grid', c,
                  {'max abs diff': float(np.abs(got - ref).max()), 'sum': float(got.sum())}, {'sum': float(ref.sum())},
@@ -494,6 +500,18 @@ def run(ctx):
     whole(ctx, tsc)
     stages['whole'] = round(time.time() - t0, 1)
     ctx.extra['stage_seconds_cumulative'] = stages
+    # one representative of every kind of failure first (the replay file shows the first few)
+    seen, first, rest = set(), [], []
+    for f in ctx.failures:
+        (rest if f['key'] in seen else first).append(f)
+        seen.add(f['key'])
+    ctx.failures[:] = first + rest
+    keys = {}
+    for f in ctx.failures:
+        keys[f['key']] = keys.get(f['key'], 0) + 1
+    ctx.extra['failure_keys'] = keys
+    if keys:
+        log('[c07] failures by kind', keys)
     log('[c07] cumulative stage seconds', stages)
 
 
